@@ -103,7 +103,7 @@ def run(ctx):
         e = lb.expr_of_call(calls[0]['term'])
         # (key, module) of the same map entry
         okl = okl and sum(1 for a in e[2] if any(is_call(x, 'Iterator::next') for x in walk(a))) == 2
-    ctx.ob(['C14'], 'R-ITER', 'C14-D1|every-module-written', okl, 'build() calls write_module for every module of the resolved state (unfiltered loop, key and module of the same entry, error propagated)', loc(lb.span))
+    ctx.ob(['C14', 'C15'], 'R-ITER', 'C14-D1|every-module-written', okl, 'build() calls write_module for every module of the resolved state (unfiltered loop, key and module of the same entry, error propagated)', loc(lb.span))
     # ---- C13-D1 parse gate
     pf = [c for c in wm.calls(lambda r: r['path'] == 'syn::parse_file')]
     okg = False
